@@ -83,8 +83,10 @@ def run(case, out):
         return
     p = case["p"]
     ref = GP.ref_of(p)
-    if p.get("inmode") == "int":
+    if p.get("inmode") in ("int", "allint"):
         out.probe("int_input_symbols")
+    if p.get("inmode") == "allint":
+        out.probe("states_stack_and_inputs_share_int_values")
     out.shape = GP.shape_digest(p)
     out.fault("value_hash" if p.get("hash") else "hashseed_only")
     le = ref.lang_empty_stack(N)
